@@ -263,9 +263,19 @@ def math_readback(run, tier):
     extra = [("db.Setting = [4, 5.5, 6][1]\n", 5.5), ("db.Setting = [4, 5, 6][2] + 1\n", 7), ("db.Setting = pi\n", math.pi),
              ("db.Setting = tau / 2\n", math.pi), ("a = 3\nb = a * 2\ndb.Setting = b\n", 6),
              ("x = 2.5\ndb.Setting = x - 0.5\n", 2.0)]
+    # HASH("..") operands of folded comparisons: in verbose mode the folder sees the text, not the number
+    from ..ic10 import signed_crc
+    for nm in ["abc", "Steel", "StructureWallLight"]:
+        h = signed_crc(nm)
+        extra += [(f'db.Setting = (HASH("{nm}") == {h}) + 1\n', 2), (f'db.Setting = (HASH("{nm}") != {h}) + 1\n', 1),
+                  (f'db.Setting = (HASH("{nm}") == {h + 1}) + 1\n', 1), (f'db.Setting = ({h} == HASH("{nm}")) * 5\n', 5),
+                  (f'db.Setting = (HASH("{nm}") == HASH("{nm}")) + (HASH("{nm}") != HASH("x{nm}"))\n', 2)]
     for src, v in extra:
         jobs.append((src, impl.vec(append_version=False)))
         exp.append(("const", src, v))
+        if "HASH" in src:
+            jobs.append((src, impl.vec(append_version=False, compact=True)))
+            exp.append(("const", src, v))
     res = impl.compile_many(jobs)
     for (src, opts), r, (f, x, want) in zip(jobs, res, exp):
         run.count("evaluations")
